@@ -217,4 +217,16 @@ theorem shapedWrite_eq_rounds_aux (caps : Nat → Nat) (l : Listener) (c : Conn)
   · simp only [validShape]
   · rw [hacts]; simp only [validShape]
 
+theorem noOverlap_get : ∀ (ts : List Throttle), NoOverlap ts → ∀ (j : Nat) (hj : j + 1 < ts.length),
+    (ts[j]'(by omega)).stop ≤ (ts[j + 1]'hj).start ∧ (ts[j]'(by omega)).stop ≠ -1
+  | [], _, j, hj => by simp only [List.length_nil] at hj; omega
+  | [_], _, j, hj => by simp only [List.length_cons, List.length_nil] at hj; omega
+  | t :: t2 :: rest, h, j, hj => by
+    obtain ⟨h1, h2, h3⟩ := h
+    cases j with
+    | zero => exact ⟨h1, h2⟩
+    | succ j =>
+      have := noOverlap_get (t2 :: rest) h3 j (by simpa using hj)
+      simpa using this
+
 end Martian.Shape
